@@ -12,7 +12,10 @@ use std::collections::HashMap;
 use std::fmt;
 use std::fmt::{Debug, Display, Formatter};
 use std::ops::Deref;
+#[cfg(not(feature = "Verif_Hooks"))]
 use std::sync::{Arc, LockResult, Mutex, MutexGuard};
+#[cfg(feature = "Verif_Hooks")]
+use {crate::verif_sync::{Mutex, MutexGuard}, std::sync::{Arc, LockResult}};
 
 use crate::actions::ActionMap;
 use crate::event_io_processor::EventIOProcessor;
